@@ -347,6 +347,49 @@ example (h : Valid w) {k : ℝ} (hk : w.k2 = Life.finite k) : ∃ n90 n10,
     (half_pos v) (half_lt_self v)
   exact ⟨a, b, h1, h2, by rw [h4, isQuantile_example.2]⟩
 
+/-- The remaining loads, BETWEEN the two knees (`SD_10 ≤ L < SD_90`): the 10 % curve is on its `k_1` line there, the
+90 % curve already on its `k_2` line.  With `k_2 = inf` the 90 % life is infinite (no ratio); with a finite
+`k_2 = k` the log-ratio exceeds the nominal `e·log TN`, `e = 2·z₀.₉·c`, by `(k − k_1)·(log SD_90 − log L) ≥ 0`.
+Together with `N90_over_N10` (`L ≥ SD_90`) and `N90_over_N10_below_knee` (`L < SD_10`) every positive load is covered;
+"N_90/N_10 equals TN" holds as stated exactly on `L ≥ SD_90` (and everywhere if `k_2 = k_1`). -/
+theorem N90_over_N10_between_knees (hq : IsQuantile ppf) (h : Valid w) {L : ℝ}
+    (hL1 : (transform ppf w 0.1).SD ≤ L) (hL9 : L < (transform ppf w 0.9).SD) :
+    (w.k2 = Life.inf → cycles ppf w 0.9 L = Life.inf ∧ ∃ n10, cycles ppf w 0.1 L = Life.finite n10) ∧
+    (∀ k, w.k2 = Life.finite k →
+      ∃ n90 n10, cycles ppf w 0.9 L = Life.finite n90 ∧ cycles ppf w 0.1 L = Life.finite n10 ∧ 0 < n10 ∧
+        Real.log n90 - Real.log n10 = (2 * ppf 0.9 * cRange) * Real.log w.TN
+          + (k - w.k1) * (Real.log (transform ppf w 0.9).SD - Real.log L) ∧
+        (2 * ppf 0.9 * cRange) * Real.log w.TN ≤ Real.log n90 - Real.log n10) := by
+  have v9 := h.transform ppf 0.9
+  have v1 := h.transform ppf 0.1
+  have hL0 : 0 < L := lt_of_lt_of_le v1.SD hL1
+  refine ⟨fun hk => ⟨cyclesAt_below_inf hL9 (by simpa using hk), _, cyclesAt_above hL1⟩, fun k hk => ?_⟩
+  have e : Real.log ((transform ppf w 0.9).ND * (L / (transform ppf w 0.9).SD) ^ (-k)) -
+      Real.log ((transform ppf w 0.1).ND * (L / (transform ppf w 0.1).SD) ^ (-(transform ppf w 0.1).k1))
+        = (2 * ppf 0.9 * cRange) * Real.log w.TN
+          + (k - w.k1) * (Real.log (transform ppf w 0.9).SD - Real.log L) := by
+    rw [log_basquin _ v9.ND v9.SD hL0, log_basquin _ v1.ND v1.SD hL0, log_transform_SD ppf h,
+      log_transform_SD ppf h, log_transform_ND ppf h, log_transform_ND ppf h, ← shift_90_10 hq w]
+    simp only [transform_k1]
+    ring
+  refine ⟨_, _, cyclesAt_below hL9 (by simpa using hk), cyclesAt_above hL1, basquin_pos _ v1.ND v1.SD hL0, e, ?_⟩
+  rw [e]
+  have hk1 : 0 ≤ k - w.k1 := sub_nonneg.2 (h.k2 k hk)
+  have hlog : 0 ≤ Real.log (transform ppf w 0.9).SD - Real.log L :=
+    sub_nonneg.2 (Real.log_le_log hL0 hL9.le)
+  nlinarith [mul_nonneg hk1 hlog]
+
+example (h : Valid w) {k : ℝ} (hk : w.k2 = Life.finite k)
+    (hgap : (transform (fun p : ℝ => (p - 1 / 2) * (1 / (2 * (4 / 10) * (cRange : ℝ)))) w 0.1).SD
+      < (transform (fun p : ℝ => (p - 1 / 2) * (1 / (2 * (4 / 10) * (cRange : ℝ)))) w 0.9).SD) : ∃ n90 n10,
+    cycles (fun p : ℝ => (p - 1 / 2) * (1 / (2 * (4 / 10) * (cRange : ℝ)))) w 0.9
+      (transform (fun p : ℝ => (p - 1 / 2) * (1 / (2 * (4 / 10) * (cRange : ℝ)))) w 0.1).SD = Life.finite n90 ∧
+    cycles (fun p : ℝ => (p - 1 / 2) * (1 / (2 * (4 / 10) * (cRange : ℝ)))) w 0.1
+      (transform (fun p : ℝ => (p - 1 / 2) * (1 / (2 * (4 / 10) * (cRange : ℝ)))) w 0.1).SD = Life.finite n10 ∧
+    1 * Real.log w.TN ≤ Real.log n90 - Real.log n10 := by
+  obtain ⟨a, b, h1, h2, _, _, h5⟩ := (N90_over_N10_between_knees isQuantile_example.1 h le_rfl hgap).2 k hk
+  exact ⟨a, b, h1, h2, by rw [← isQuantile_example.2]; exact h5⟩
+
 /-- Transforming to `p₁` and then to `p₂` equals transforming to `p₂` directly (every `ppf`). -/
 theorem transform_compose (h : Valid w) (p₁ p₂ : ℝ) :
     transform ppf (transform ppf w p₁) p₂ = transform ppf w p₂ := by
